@@ -44,7 +44,7 @@ CHECKS = {
     },
     "C17": {
         "engine": "histories-fresh-interpreter", "level": "model_checking", "design_ref": "DESIGN.md §18",
-        "technique": "exhaustive enumeration of construction histories (all sequences with repetition over 13 artifact kinds, length <= 2 quick / <= 3 thorough), each run on the real code in a fresh interpreter under a counting random source; oracle on draw indices",
+        "technique": "exhaustive enumeration of construction histories (all sequences with repetition over 14 artifact kinds, length <= 2 quick / <= 3 thorough), each run on the real code in a fresh interpreter under a counting random source; oracle on draw indices",
         "text": "Every sequence of artifact constructions up to the bound is executed in its own interpreter with `secrets` replaced before import, under two generator seeds; a self-chosen field must be traceable to draws made during its own artifact's construction, no draw may feed two artifacts or appear in a foreign export, and values must change with the seed. Inside the bound this decides same-process sharing and import-time (cross-process-identical-by-construction) values.",
         "note": "Trusted: that spsdk.crypto.rng (secrets.*) is the only entropy source for these fields; OpenSSL-internal signature randomness is out of scope; histories longer than the bound are not explored.",
     },
